@@ -201,6 +201,7 @@ fn('linear._Linear.partial_fit', props='C02 C06 C08 C17 C20',
    requires=['INV', 'not is_none(self.num_features)', 'rows(contexts) == slen(decisions)',
              'slen(decisions) == slen(rewards)', 'slen(self.arms) > 0'],
    raises=['ValueError'],
+   raises_only_if='cols(contexts) != self.num_features',      # a batch of the trained width is never rejected
    modifies=['self.arm_to_model[*]', 'self.arm_to_status[*]'],
    ensures=['INV',
             '[C02,C06,acc.unobserved] ' + forall_arms('implies(cnt(decisions, a) == 0, %s)' % ' and '.join(
